@@ -273,6 +273,25 @@ func (s *sim) checkResumed(d diskSnapshot) {
 			return
 		}
 	}
+	// the previous-commit proof of the resumed voting view is the certificate of the committed block below it
+	if s.vv.Height > s.w.init && s.cv.Height == s.vv.Height-1 {
+		if ch, ok := s.committedHeader(s.cv.Height); ok {
+			set := s.setFor(s.cv.Height)
+			pcp := s.vv.PrevCommitProof
+			hash := string(ch.Header.Hash)
+			for _, target := range sortedKeys(pcp.Proofs) {
+				if _, bad := checkSigs(set, 1, s.cv.Height, pcp.Round, target, pcp.Proofs[target]); bad != "" {
+					s.failf("", "resumed-prev-commit-proof-invalid", "restarted voting view %d/%d carries a previous commit proof (round %d) whose content is not for height %d: %s", s.vv.Height, s.vv.Round, pcp.Round, s.cv.Height, bad)
+					return
+				}
+			}
+			okSet, _ := checkSigs(set, 1, s.cv.Height, pcp.Round, hash, pcp.Proofs[hash])
+			if !exceedsTwoThirds(powerOf(set, okSet), set.total()) {
+				s.failf("", "resumed-prev-commit-proof-insufficient", "restarted voting view %d/%d: its previous commit proof holds power %s of %s for the committed block %s of height %d", s.vv.Height, s.vv.Round, powerOf(set, okSet), set.total(), hx([]byte(hash)), s.cv.Height)
+				return
+			}
+		}
+	}
 	for _, v := range []*tmconsensus.VersionedRoundView{&s.vv, &s.cv} {
 		if v.Height == 0 {
 			continue
